@@ -55,6 +55,17 @@ def replay(ctx, mdl, shards=None, stress=None):
     check the larger instance (thorough) and run the free-running stress test."""
     paths, nnodes, nedges = vf.path_cover(mdl["ideal"].edges)
     ctx.rng.shuffle(paths)
+    if os.environ.get("VERIF_CORRUPT"):
+        # binding self-test: corrupt ONE expected state (the answering agent of one delivered result); the run must
+        # end with a VIOLATION
+        done = False
+        for p in paths:
+            for st in p["steps"]:
+                if st["t"]["done"] and not done:
+                    d = st["t"]["done"][0]
+                    d["who"] = "Y" if d["who"] == "X" else "X"
+                    done = True
+        ctx.log("VERIF_CORRUPT: one expected result corrupted:", done)
     inp = os.path.join(ctx.work, "control_paths.json")
     vf.write_json(inp, {"paths": paths, "scenarios": mdl["seeds"]})
     if shards is None:
